@@ -72,11 +72,12 @@ const POOL: &[&str] = &[
     // boxes, structs, ports, misc
     "(box 1)", "(C07S 1 2)", "(open-input-string \"abc def\")", "(open-output-string)", "void", "(eof-object)",
     "(with-handler (lambda (e) e) (error \"x\"))", "(Some 1)", "(Err 2)", "empty-stream", "(mapping (lambda (x) x))",
-    "(make-weak-box (list 1))", "(mutex)", "(instant/now)",
+    "(make-weak-box (list 1))", "(mutex)", "(instant/now)", "c07-mv", "(new-reader)", "(string->jsexpr \"{\\\"a\\\": [1, 2.5, null]}\")",
 ];
 
 const PRELUDE: &str = r#"
 (struct C07S (a b))
+(define c07-mv ((%module-get% %-builtin-module-#%private/steel/mvector 'mutable-vector-from-list) (list 1 2 3)))
 (define c07-keep 'kept)
 (define (c07-keep-fn x) (list x c07-keep))
 "#;
@@ -401,8 +402,10 @@ fn run_texts(jobs: Vec<String>, t0: Instant) {
                 set_step(&format!("T {}", id), t0);
                 INTERRUPT_WANTED.store(true, Ordering::SeqCst);
                 RUNNING.store(true, Ordering::SeqCst);
+                let t_eval = Instant::now();
                 let r = eval(&mut engine, text);
                 RUNNING.store(false, Ordering::SeqCst);
+                emit(&format!("M {} {}", id, t_eval.elapsed().as_millis()));
                 if let Some(c) = CONTROLLER.lock().unwrap().as_ref() {
                     (c.1)();
                 }
@@ -638,7 +641,15 @@ fn main() {
                 for f in fns {
                     let v = module.try_get_ref(&f).unwrap();
                     let ar = module.search(v.clone()).map(|x| format!("{:?}", x.arity)).unwrap_or("?".into());
-                    println!("{}\t{}\t{}\t{}", m, f, kind_of(&v), ar);
+                    // identity of the procedure: the same procedure is exported by several modules
+                    let ident = match &v {
+                        SteelVal::FuncV(f) => format!("f{:x}", *f as usize),
+                        SteelVal::MutFunc(f) => format!("m{:x}", *f as usize),
+                        SteelVal::BuiltIn(f) => format!("b{:x}", *f as usize),
+                        SteelVal::BoxedFunction(g) => format!("x{:x}", &**g as *const _ as *const u8 as usize),
+                        _ => "-".to_string(),
+                    };
+                    println!("{}\t{}\t{}\t{}\t{}", m, f, kind_of(&v), ar, ident);
                 }
             }
             return;
